@@ -2,7 +2,8 @@
 (* Validation of traces recorded by harness/cmd/faultdrv -mode fault against the obligations of FaultObs.tla
    (C04, C05).  One JSON object per line, every line with the same fields:
 
-     RESET      ck = scenario name, kind = queue implementation ("ring" | "flowbuffer"), v = fault
+     RESET      ck = scenario name, kind = queue implementation ("ring" | "flowbuffer"), v = fault, val = further ingredients of
+                the scenario ("" or a list like "push=sunsubscribe traffic resp2", named in the findings)
      Call       id, cls = call kind, ck = context kind, kind = role: "warm" | "pend" | "trigger" | "after"
      SConn, SRecv(id, conn), SExec(id), SRep(id, conn, kind, val), SBreak(conn, kind)      server side (dispatcher mutex)
      CancelBegin(id) / CancelEnd(id)     the call's context is being / has been ended (CancelEnd is logged after
@@ -14,32 +15,32 @@
    Deterministic walker (one successor per line); findings are VERDICT lines; POSTCONDITION: the trace was consumed. *)
 EXTENDS FaultObs, IOUtils
 
-VARIABLES l, scn, queue, fault, calls, broken, anyBreak, closeBegun, closeDone
+VARIABLES l, scn, queue, fault, opts, calls, broken, anyBreak, closeBegun, closeDone
 
 TraceLog == ndJsonDeserialize(IOEnv.VERIF_TRACE)
-tvars == <<l, scn, queue, fault, calls, broken, anyBreak, closeBegun, closeDone>>
+tvars == <<l, scn, queue, fault, opts, calls, broken, anyBreak, closeBegun, closeDone>>
 Ev == TraceLog[l]
 Is(e) == l <= Len(TraceLog) /\ TraceLog[l].ev = e
 Known == Ev.id \in DOMAIN calls
 
 \* what a pending call is waiting for: another caller's cache flight, room in the queue (it never reached a server), a reply
-Waiting(c) == IF c.cls = "cachewait" THEN "flight" ELSE IF c.conns = {} THEN "slot" ELSE "reply"
+Waiting(c) == WaitingPlace(c.cls, c.conns # {})
 Verdict(what, id, c, detail) ==
    PrintT(<<"VERDICT", ToJson([scn |-> scn, what |-> what, call |-> id, callkind |-> c.cls, ctx |-> c.ctxk, role |-> c.role,
-                               fault |-> fault, queue |-> queue, waiting |-> Waiting(c), detail |-> detail, line |-> l])>>)
+                               fault |-> fault, queue |-> queue, opts |-> opts, waiting |-> Waiting(c), detail |-> detail, line |-> l])>>)
 Check(ok, what, id, c, detail) == IF ok THEN TRUE ELSE Verdict(what, id, c, detail)
 
 NewCall == [cls |-> Ev.cls, ctxk |-> Ev.ck, role |-> Ev.kind, conns |-> {}, replies |-> {}, ctxBegun |-> FALSE,
             ctxEnded |-> FALSE, dedClosed |-> FALSE, dedBegun |-> FALSE, ret |-> FALSE, afterClose |-> closeDone]
 Broke(c) == (c.conns \cap broken # {}) \/ (c.conns = {} /\ anyBreak /\ c.cls # "block")
 
-TraceInit == /\ l = 1 /\ scn = "" /\ queue = "" /\ fault = "" /\ calls = <<>> /\ broken = {} /\ anyBreak = FALSE
+TraceInit == /\ l = 1 /\ scn = "" /\ queue = "" /\ fault = "" /\ opts = "" /\ calls = <<>> /\ broken = {} /\ anyBreak = FALSE
              /\ closeBegun = FALSE /\ closeDone = FALSE /\ TLCSet(1, 1)
 Step == l' = l + 1
 Upd(id, c) == calls' = [calls EXCEPT ![id] = c]
-Rest == UNCHANGED <<scn, queue, fault, broken, anyBreak, closeBegun, closeDone>>
+Rest == UNCHANGED <<scn, queue, fault, opts, broken, anyBreak, closeBegun, closeDone>>
 
-Reset == /\ Is("RESET") /\ Step /\ scn' = Ev.ck /\ queue' = Ev.kind /\ fault' = Ev.v /\ calls' = <<>> /\ broken' = {}
+Reset == /\ Is("RESET") /\ Step /\ scn' = Ev.ck /\ queue' = Ev.kind /\ fault' = Ev.v /\ opts' = Ev.val /\ calls' = <<>> /\ broken' = {}
          /\ anyBreak' = FALSE /\ closeBegun' = FALSE /\ closeDone' = FALSE
 Call == /\ Is("Call") /\ Step /\ calls' = (Ev.id :> NewCall) @@ calls /\ Rest
 SRecv == /\ Is("SRecv") /\ Step /\ Rest
@@ -51,13 +52,19 @@ SRecv == /\ Is("SRecv") /\ Step /\ Rest
 SRep == /\ Is("SRep") /\ Step /\ Rest
         /\ IF Known THEN Upd(Ev.id, [calls[Ev.id] EXCEPT !.replies = @ \cup {<<Ev.kind, Ev.val>>}]) ELSE UNCHANGED calls
 SBreak == /\ Is("SBreak") /\ Step /\ broken' = broken \cup {Ev.conn} /\ anyBreak' = TRUE
-          /\ UNCHANGED <<scn, queue, fault, calls, closeBegun, closeDone>>
+          /\ UNCHANGED <<scn, queue, fault, opts, calls, closeBegun, closeDone>>
+\* the server keeps a reply back.  Under the fault "pingtimeout" that is the silence of a dead peer: the connection is as good as
+\* gone and the client has to find that out by itself (keep-alive ping, time-out of a call on the synchronous path), however
+\* busy the connection is; every call pending on it must come back (a blocking command is not held: it blocks by itself)
+SRepHeld == /\ Is("SRepHeld") /\ Step
+            /\ broken' = IF fault = "pingtimeout" THEN broken \cup {Ev.conn} ELSE broken
+            /\ UNCHANGED <<scn, queue, fault, opts, calls, anyBreak, closeBegun, closeDone>>
 CancelBegin == /\ Is("CancelBegin") /\ Step /\ Rest
                /\ IF Known THEN Upd(Ev.id, [calls[Ev.id] EXCEPT !.ctxBegun = TRUE]) ELSE UNCHANGED calls
 CancelEnd == /\ Is("CancelEnd") /\ Step /\ Rest
              /\ IF Known THEN Upd(Ev.id, [calls[Ev.id] EXCEPT !.ctxEnded = TRUE]) ELSE UNCHANGED calls
-CloseBegin == Is("CloseBegin") /\ Step /\ closeBegun' = TRUE /\ UNCHANGED <<scn, queue, fault, calls, broken, anyBreak, closeDone>>
-CloseEnd == Is("CloseEnd") /\ Step /\ closeDone' = TRUE /\ UNCHANGED <<scn, queue, fault, calls, broken, anyBreak, closeBegun>>
+CloseBegin == Is("CloseBegin") /\ Step /\ closeBegun' = TRUE /\ UNCHANGED <<scn, queue, fault, opts, calls, broken, anyBreak, closeDone>>
+CloseEnd == Is("CloseEnd") /\ Step /\ closeDone' = TRUE /\ UNCHANGED <<scn, queue, fault, opts, calls, broken, anyBreak, closeBegun>>
 DedCloseBegin == /\ Is("DedCloseBegin") /\ Step /\ Rest
                  /\ IF Known THEN Upd(Ev.id, [calls[Ev.id] EXCEPT !.dedBegun = TRUE]) ELSE UNCHANGED calls
 DedCloseEnd == /\ Is("DedCloseEnd") /\ Step /\ Rest
@@ -85,18 +92,20 @@ Waited == /\ Is("Waited") /\ Step /\ Rest /\ UNCHANGED calls
                LET c == calls[id] IN
                (~c.ret /\ Ev.n >= HangAfterMs) =>
                   Check(~MustReturn(c.cls, Broke(c), closeDone, c.ctxEnded, c.dedClosed),
-                        IF Broke(c) THEN "hang-after-break" ELSE IF closeDone \/ c.dedClosed THEN "hang-after-close" ELSE "ctx-hang",
+                        \* (a call whose own context has ended hangs on its context, whatever else has happened before)
+                        IF c.ctxEnded /\ c.cls # "sub" /\ fault = "ctxend" THEN "ctx-hang"
+                        ELSE IF Broke(c) THEN "hang-after-break" ELSE IF closeDone \/ c.dedClosed THEN "hang-after-close" ELSE "ctx-hang",
                         id, c, "")
 \* the server goes silent for good: from now on the keep-alive watchdog is expected to break the connection
 \* (a refused dial is a failed connection as well)
 Fault == /\ Is("Fault") /\ Step /\ anyBreak' = (anyBreak \/ Ev.kind \in {"pingtimeout", "dialfail"})
-         /\ UNCHANGED <<scn, queue, fault, calls, broken, closeBegun, closeDone>>
+         /\ UNCHANGED <<scn, queue, fault, opts, calls, broken, closeBegun, closeDone>>
 Other == /\ l <= Len(TraceLog)
-         /\ Ev.ev \notin {"RESET", "Call", "SRecv", "SRep", "SBreak", "CancelBegin", "CancelEnd", "CloseBegin", "CloseEnd",
+         /\ Ev.ev \notin {"RESET", "Call", "SRecv", "SRep", "SRepHeld", "SBreak", "CancelBegin", "CancelEnd", "CloseBegin", "CloseEnd",
                           "DedCloseBegin", "DedCloseEnd", "Ret", "Waited", "Fault"}
          /\ Step /\ Rest /\ UNCHANGED calls
 
-TraceNext == Reset \/ Call \/ SRecv \/ SRep \/ SBreak \/ CancelBegin \/ CancelEnd \/ CloseBegin \/ CloseEnd
+TraceNext == Reset \/ Call \/ SRecv \/ SRep \/ SRepHeld \/ SBreak \/ CancelBegin \/ CancelEnd \/ CloseBegin \/ CloseEnd
              \/ DedCloseBegin \/ DedCloseEnd \/ Ret \/ Waited \/ Fault \/ Other
 TraceSpec == TraceInit /\ [][TraceNext]_tvars
 HighWater == TLCSet(1, IF l > TLCGet(1) THEN l ELSE TLCGet(1))
